@@ -257,6 +257,30 @@ func (r *Run) Finish(exhaustive bool) int {
 	}
 	sort.Strings(kh)
 	cov["known_findings_reproduced"] = kh
+	// evidence of a companion worker (the controlled-scheduler part of a native check) is embedded
+	extraViol := 0
+	if f := os.Getenv("VERIF_EXTRA_EVIDENCE"); f != "" {
+		if b, err := os.ReadFile(f); err == nil {
+			var ex map[string]interface{}
+			if json.Unmarshal(b, &ex) == nil {
+				cov["controlled_scheduler_part"] = ex["coverage"]
+				if v, ok := ex["violations"].(float64); ok {
+					extraViol = int(v)
+				}
+				if c, ok := ex["coverage"].(map[string]interface{}); ok {
+					for _, k := range []string{"states", "transitions", "traces_validated_against_impl"} {
+						if v, ok := c[k].(float64); ok {
+							cov[k] = int64(v)
+						}
+					}
+				}
+			} else {
+				r.infra = append(r.infra, "companion evidence unreadable")
+			}
+		} else {
+			r.infra = append(r.infra, "companion evidence missing: "+err.Error())
+		}
+	}
 	var stale []string
 	for k := range r.known {
 		if !r.knownHit[k] {
@@ -271,7 +295,7 @@ func (r *Run) Finish(exhaustive bool) int {
 		"property_id": r.ID, "tier": r.Tier, "seed": r.Seed, "level": r.Level,
 		"coverage": cov, "assumptions": r.assume,
 		"wall_s":     float64(time.Since(r.start).Milliseconds()) / 1000,
-		"violations": r.violations,
+		"violations": r.violations + extraViol,
 	}
 	if r.assume == nil {
 		ev["assumptions"] = []string{}
